@@ -171,6 +171,7 @@ static RunSpec derive_spec(const std::string& world, int variant, uint64_t run_s
   if (world == "c16") {
     s.maskA = variant == 0 ? MASK_ALL : masks[rc.below(5)];
     g.adjacent_slots = variant == 1;
+    g.edge_products = true;
     g.life_ops = true;
     g.module_ops = true;
     g.zero_sizes = true;
@@ -194,6 +195,7 @@ static RunSpec derive_spec(const std::string& world, int variant, uint64_t run_s
     g.module_ops = true;
     g.table_ops = true;
     g.kernel_pairs = true;
+    g.edge_products = true;
     g.tiny_values = true;
     g.zero_sizes = true;
     g.min_calls = 6;
@@ -503,7 +505,23 @@ static void run_c07(const RunSpec& s, RunResult& R) {
       bool integer = op_is_integer_output(s.P, c, k);
       if (oi.level == 0) {
         // module level: integer-typed results bit-identical; DFT-space values are compared once they are back in integers
-        if (integer) {
+        if (integer && (a.approx[i] || b.approx[i])) {
+          // edge-of-budget product: both variants were compared with the exact value within the documented bound; one of
+          // them failing that comparison while the other passes is a dispatch dependence
+          bool fa = false, fb = false;
+          for (auto& v : a.viol) fa |= v.kind == "model-mismatch" && v.call == (int)i;
+          for (auto& v : b.viol) fb |= v.kind == "model-mismatch" && v.call == (int)i;
+          compared++;
+          if (fa != fb) {
+            Violation v;
+            v.kind = "dispatch-dependent-output";
+            v.detail = std::string(oi.name) + ": result is outside the documented error bound under mask " + (fa ? mask_names[s.maskA] : mask_names[s.maskB]) + " only";
+            v.call = (int)i;
+            v.op = c.op;
+            R.viol.push_back(v);
+            R.status = "violation";
+          }
+        } else if (integer) {
           compared++;
           if (a.out_hash[i][oh] != b.out_hash[i][oh]) {
             Violation v;
